@@ -527,6 +527,22 @@ func TestC14_Table(t *testing.T) {
 		stats.Eval()
 		judge(t, "c14", c14Case{Curve: cv, XZero: true, Message: rc.Hex{}}, checkC14)
 	}
+	// private scalars at the ends of their range, and Ed25519 seeds that are all zero / all ones / a counter
+	for _, cv := range []int{256, 384, 521} {
+		nn := curveOf(cv).Params().N
+		for _, d := range []*big.Int{big.NewInt(1), big.NewInt(2), big.NewInt(3), new(big.Int).Sub(nn, big.NewInt(1)), new(big.Int).Sub(nn, big.NewInt(2)), new(big.Int).Rsh(nn, 1)} {
+			n++
+			stats.Eval()
+			stats.Class("table/extreme-private-scalar")
+			judge(t, "c14", c14Case{Curve: cv, D: d.Bytes(), Message: rc.Hex("extreme")}, checkC14)
+		}
+	}
+	for _, seed := range [][]byte{make([]byte, 32), bytes.Repeat([]byte{0xff}, 32), bytes.Repeat([]byte{0x01}, 32), append(make([]byte, 31), 1), append([]byte{0x80}, make([]byte, 31)...)} {
+		n++
+		stats.Eval()
+		stats.Class("table/extreme-ed25519-seed")
+		judge(t, "c14", c14Case{Curve: 0, D: seed, Message: rc.Hex("extreme")}, checkC14)
+	}
 	// public keys whose x coordinate lies at the ends of the field and around the group order n (n < p on all
 	// three curves: the x values in [n, p) are valid coordinates that no random key will ever show)
 	for _, cv := range []int{256, 384, 521} {
